@@ -187,6 +187,27 @@ func probe(wordsArg string) string {
 	if int(wl.Size()) != len(want) {
 		return "PLAIN: KEPT-FAIL=size"
 	}
+	if len(snapshot) != len(want) {
+		// something was dropped, so the duplicate-words notice is written: whether standard error can
+		// take it is no business of the list being built
+		f, ferr := os.CreateTemp("", "closedstderr")
+		if ferr == nil {
+			name := f.Name()
+			f.Close()
+			os.Remove(name)
+			saved := os.Stderr
+			os.Stderr = f // a closed file: every write to it fails
+			copy(src, snapshot)
+			wl3, err3 := spg.NewWordList(src)
+			os.Stderr = saved
+			if err3 != nil || wl3 == nil {
+				return "PLAIN: NewWordList refused a non-empty list (when standard error cannot be written to)"
+			}
+			if got3, ok := contents(wl3); !ok || !same(got3, want) {
+				return "PLAIN: KEPT-FAIL (with standard error unwritable)"
+			}
+		}
+	}
 	if !exported {
 		// the caller goes on using its slice
 		for i := range src {
